@@ -472,13 +472,6 @@ def check_length_spline(case, ctx: Ctx) -> None:
     ctx.label("breaks-between=0" if inner == 0 else ("breaks-between=1" if inner == 1 else "breaks-between>=2"))
 
 
-def total_turning(spec) -> float:
-    b0, b1 = bounds_of(spec)
-    if spec["type"] in ("circle", "helix"):
-        return abs(b1 - b0)
-    return 0.0 if spec["type"] == "line" else math.pi  # a twisted cubic turns by less than pi in total
-
-
 def check_length_analytic(case, ctx: Ctx) -> None:
     spec = case["curve"]
     curve, ref = build(spec)
@@ -560,13 +553,6 @@ class Profile:
         self.i_min = int(np.argmin(self.prof))
         self.d_min = float(self.prof[self.i_min])
         self.scan_bounds = scan_bounds
-
-    def refined(self):
-        """(t, distance) of the dense minimum refined inside its bracket"""
-        i = self.i_min
-        lo, hi = self.ts[max(i - 1, 0)], self.ts[min(i + 1, len(self.ts) - 1)]
-        t, d = golden(lambda t: float(np.linalg.norm(self.sample([t])[0] - self.q)), lo, hi)
-        return (t, d) if d < self.d_min else (float(self.ts[i]), self.d_min)
 
     def modes(self) -> int:
         p = self.prof
@@ -953,7 +939,7 @@ CELLS = [
          "interpolated curves: point at the returned parameter is as close as the dense minimum (near queries)"),
     Cell("C16/closest/analytic", closest_case(analytic_curve()), check_closest_function, 900, 15000,
          "analytic curves, seam of closed circles avoided: as close as the dense minimum (near queries)"),
-    Cell("C16/edge/oncurve", edge_case(), check_edge, 700, 12000,
+    Cell("C16/edge/oncurve", edge_case(), check_edge, 500, 10000,
          "one OnCurve edge in any of 12 positions, either direction, spline / polyLine: written points on the curve "
          "between and ordered from vertex 1 to vertex 2; Edge.length = curve length between the vertices"),
 ]
